@@ -12,6 +12,7 @@
  *   rb <n,n,…> <probeMax> <totMax>           update_received_blocks sequence + check_* queries
  *   body <bodyLen> <seed> <off:len:total,…>  coap_block_build_body sequence
  *   srcv <szx> <bodyLen> <seed> <size1|-> <num:m[:len],…>   coap_handle_request_put_block sequence (SINGLE_BODY)
+ *   srcv2 <maxBlk> <bodyLen> <seed> <size1|-> <num.m.szx,…>  the same with a block size per step and a server block size limit
  *
  * Layer B (H-sim, sim_core.h): a real client and a real server context, virtual clock, scripted network:
  *
@@ -271,12 +272,76 @@ static void do_srcv(unsigned szx, size_t bodyLen, unsigned seed, long size1, cha
       coap_get_data_large(req, &l, &d, &o, &t);
       printf("d%zu:%zu:%zu:%08x", o, l, t, sim_fnv(d, l));
       if (free_lg) {
+        coap_lock_lock(ctx, break);
         LL_DELETE(s->lg_srcv, free_lg);
         coap_block_delete_lg_srcv(s, free_lg);
+        coap_lock_unlock(ctx);
       }
     } else {
       printf("s%d", (int)rsp->code);
     }
+    coap_delete_pdu(req);
+    coap_delete_pdu(rsp);
+  }
+  coap_delete_string(uri);
+  sim_free_all(0);
+  sim_log_enabled = 1;
+  free(body);
+}
+
+/* srcv2 <maxBlk> <bodyLen> <seed> <size1|-> <num.m.szx,…> : every step has its own SZX, payload = the genuine slice */
+static void do_srcv2(unsigned maxBlk, size_t bodyLen, unsigned seed, long size1, char *seq) {
+  sim_reset();
+  sim_log_enabled = 0;
+  uint8_t *body = mk_body(bodyLen, seed);
+  coap_context_t *ctx = sim_new_context();
+  coap_session_t *s;
+  coap_resource_t *res = coap_resource_init(coap_make_str_const("b"), 0);
+  coap_string_t *uri = coap_new_string(1);
+  char *tok, *save = NULL;
+  int first = 1, k = 0;
+  coap_register_request_handler(res, COAP_REQUEST_PUT, hnd_dummy);
+  coap_add_resource(ctx, res);
+  coap_context_set_block_mode(ctx, COAP_BLOCK_USE_LIBCOAP | COAP_BLOCK_SINGLE_BODY);
+  if (maxBlk) coap_context_set_max_block_size(ctx, (size_t)1 << (maxBlk + 4));
+  s = sim_new_client(ctx, 5683);
+  s->block_mode = ctx->block_mode;
+  uri->s[0] = 'b';
+  for (tok = strtok_r(seq, ",", &save); tok; tok = strtok_r(NULL, ",", &save), k++) {
+    unsigned num, m, szx;
+    uint8_t buf[4], tk[2] = {0x78, (uint8_t)k};
+    coap_pdu_t *req, *rsp;
+    int added = 0, ret;
+    coap_lg_srcv_t *free_lg = NULL;
+    size_t chunk, off, plen;
+    if (sscanf(tok, "%u.%u.%u", &num, &m, &szx) != 3 || szx > 6) { printf("bad-op"); break; }
+    chunk = (size_t)1 << (szx + 4);
+    off = (size_t)num * chunk;
+    if (off > bodyLen) off = bodyLen;
+    plen = bodyLen - off < chunk ? bodyLen - off : chunk;
+    req = coap_pdu_init(COAP_MESSAGE_CON, COAP_REQUEST_CODE_PUT, (coap_mid_t)(100 + k), 2048);
+    rsp = coap_pdu_init(COAP_MESSAGE_ACK, 0, (coap_mid_t)(100 + k), 2048);
+    coap_add_token(req, 2, tk);
+    coap_add_token(rsp, 2, tk);
+    coap_add_option(req, COAP_OPTION_URI_PATH, 1, (const uint8_t *)"b");
+    coap_add_option(req, COAP_OPTION_BLOCK1, coap_encode_var_safe(buf, sizeof(buf), (num << 4) | (m << 3) | szx), buf);
+    if (size1 >= 0) coap_add_option(req, COAP_OPTION_SIZE1, coap_encode_var_safe(buf, sizeof(buf), (unsigned)size1), buf);
+    if (plen) coap_add_data(req, plen, body + off);
+    coap_lock_lock(ctx, break);
+    ret = coap_handle_request_put_block(ctx, s, req, rsp, res, uri, NULL, &added, &free_lg);
+    if (!first) fputc(',', stdout);
+    first = 0;
+    if (ret == 0) {
+      size_t l = 0, o = 0, t = 0; const uint8_t *d = NULL;
+      coap_get_data_large(req, &l, &d, &o, &t);
+      printf("d%zu:%zu:%zu:%08x", o, l, t, sim_fnv(d, l));
+      if (free_lg) {
+        LL_DELETE(s->lg_srcv, free_lg);
+        coap_block_delete_lg_srcv(s, free_lg);
+      }
+    } else
+      printf("s%d", (int)rsp->code);
+    coap_lock_unlock(ctx);
     coap_delete_pdu(req);
     coap_delete_pdu(rsp);
   }
@@ -316,6 +381,9 @@ static void step(char *line) {
   } else if (!strcmp(w[0], "srcv") && n == 6) {
     do_srcv((unsigned)strtoul(w[1], 0, 10), strtoull(w[2], 0, 10), (unsigned)strtoul(w[3], 0, 10),
             strcmp(w[4], "-") ? atol(w[4]) : -1, w[5]);
+  } else if (!strcmp(w[0], "srcv2") && n == 6) {
+    do_srcv2((unsigned)strtoul(w[1], 0, 10), strtoull(w[2], 0, 10), (unsigned)strtoul(w[3], 0, 10),
+             strcmp(w[4], "-") ? atol(w[4]) : -1, w[5]);
   } else if (!strcmp(w[0], "xfer")) {
     do_xfer(n, w);
   } else
